@@ -931,7 +931,7 @@ func (r *FeatureLocal) Information() *model.NodeManagementDetailedDiscoveryFeatu
 			FeatureAddress:    r.Address(),
 			FeatureType:       &r.ftype,
 			Role:              &r.role,
-			Description:       r.description,
+			Description:       r.Description(),
 			SupportedFunction: funs,
 		},
 	}
